@@ -78,6 +78,17 @@ Theorem C10_reload_pinned_refuted :
   <> validator_automata build_sites greedy_witness_modifiers greedy_witness.
 Proof. exact reload_pinned_refuted. Qed.
 
+(* module table used on reload: a module given with add_module is the one a saved import of its name resolves
+   to, also when a built-in module has that name; names the user did not give resolve to the built-in *)
+Theorem C10_user_module_overrides :
+  forall builtins user n impl, mod_lookup n (deserialize_params builtins (user ++ [(n, impl)])) = Some impl.
+Proof. exact user_module_overrides. Qed.
+
+Theorem C10_builtin_module_kept :
+  forall builtins user n, mod_lookup n (rev user) = None -> In n builtins ->
+    mod_lookup n (deserialize_params builtins user) = Some 0.
+Proof. exact builtin_module_kept. Qed.
+
 (* finding 9.9 (fixed in /repo): with the pinned literal the agreement fails *)
 Theorem C10_rebuild_params_pinned_refuted : list_eqb site_eqb build_sites pinned_rebuild_sites = false.
 Proof. exact rebuild_params_pinned_refuted. Qed.
@@ -117,6 +128,8 @@ Print Assumptions C10_rebuild_sites_equal.
 Print Assumptions C10_dfa_overwritten_modifiers_unused.
 Print Assumptions C10_reload_same_automata.
 Print Assumptions C10_reload_pinned_refuted.
+Print Assumptions C10_user_module_overrides.
+Print Assumptions C10_builtin_module_kept.
 Print Assumptions C10_rebuild_params_pinned_refuted.
 Print Assumptions C10_float_symbol_saveable_iff_not_nan.
 Print Assumptions C10_nan_external_refuted.
